@@ -53,13 +53,19 @@
 //! partitions LEFT / LEFT SEMI / LEFT ANTI / LEFT MARK joins emit "unmatched" left rows per partition →
 //! wrong result under the memory limit (regression case
 //! /verif/regressions/C18/c18/nlj-fallback-multi-partition-left-emission.json: `t RIGHT JOIN u`, expected 1832
-//! rows, got 1871; fix /verif/fixes/C18-nlj-fallback-multi-partition-left-emission.diff); (C) found by this
+//! rows, got 1871; fix /verif/fixes/C05-nlj-spill-fallback-multi-partition.diff, the same guard as found through C05); (C) found by this
 //! check's thorough tier: with a single partition everywhere and batch_size 32 / 64 the fallback of an NLJ
 //! `join_type=Right` loses every unmatched right row (regression case
 //! /verif/regressions/C18/c18/nlj-fallback-right-unmatched-lost.json: `t LEFT JOIN u`, 128 KiB pool, expected
-//! 2681 rows, got 1317; correct with batch_size ≥ 1024; root cause not isolated, stop-gap
-//! /verif/fixes/C18-nlj-fallback-right-unmatched-lost.stopgap.diff). Until the fixes are committed every
-//! nested-loop-join case is excluded through `known_signature` (class signature `nlj-oom-fallback`).
+//! 2681 rows, got 1317; correct with batch_size ≥ 1024; same defect and root-cause fix as
+//! /verif/fixes/C05-nlj-spill-fallback-right-emission.diff of the vf-join crate). Until the fixes are committed every
+//! nested-loop-join case is excluded through `known_signature` (signatures `nlj-oom-fallback:left-emission-multi-partition`
+//! for cases with more than one partition, `nlj-oom-fallback:right-emission-skipped` otherwise).
+//!
+//! Oracle correction (seed 21): an un-ordered LIMIT answer that is not within the un-LIMITed result is re-tried
+//! without a memory limit; when the unbounded run misbehaves the same way the case is `inconclusive` — the
+//! window-limit pushdown (`SortExec: TopK(fetch=n+2)` below a window with a FOLLOWING frame, hash repartition
+//! above) returns window values computed on the truncated input with any amount of memory (C01's subject).
 use crate::data::{DataSpec, Which, multiset_diff, sequence_diff, sub_multiset};
 use crate::env::*;
 use crate::query::*;
@@ -292,7 +298,8 @@ impl Property for C18 {
     fn known_signature(&self, case: &Case) -> Option<String> {
         let nlj = case.query.shape.join_algo() == Some(JoinAlgo::NestedLoop);
         if nlj {
-            return Some(crate::c20::NLJ_FALLBACK_SIGNATURE.to_string());
+            let multi = case.cfg.target_partitions >= 2 || case.cfg.mem_partitions >= 2;
+            return Some(if multi { crate::c20::SIG_LEFT_EMISSION } else { crate::c20::SIG_RIGHT_EMISSION }.to_string());
         }
         None
     }
@@ -427,6 +434,26 @@ impl Property for C18 {
                             } else {
                                 multiset_diff(&expected, rows)
                             };
+                            if let (Some(_), true) = (&diff, sub_limit) {
+                                // An un-ordered LIMIT answer outside the un-LIMITed result can only be blamed on the
+                                // memory limit if the same LIMIT query answers correctly without one (seed 21: the
+                                // window-limit pushdown gives such rows with any amount of memory — C01's subject).
+                                let mut independent = false;
+                                for _ in 0..2 {
+                                    if let RunEnd::Finished { run: r2, .. } = one_run(case, &tb, &EnvSpec::default(), &sql, None) {
+                                        if let StreamEnd::Done(rows2) = &r2.outcome {
+                                            if rows2.len() != expected_count || sub_multiset(&reference, rows2).is_some() {
+                                                independent = true;
+                                                break;
+                                            }
+                                        }
+                                    }
+                                }
+                                if independent {
+                                    labels.push("limit-defect-independent-of-memory".into());
+                                    return done(CaseResult::inconclusive("un-ordered LIMIT answer is outside the un-LIMITed result even without a memory limit (not C18's subject)"), &labels);
+                                }
+                            }
                             if let Some(d) = diff {
                                 return done(CaseResult::violation(ctxmsg(&format!("result under the memory limit differs from the unlimited result (spill_count={}): {d}\n  plan:\n{}", run.spill_count, run.plan_text))), &labels);
                             }
